@@ -196,3 +196,39 @@ package bytecode
 //@   loop 1 invariant fresh(bodyinsts) && len(bodyinsts) == rangeindex + 1 && rangeindex + 1 <= n && loffset == offset + 1 + rangeindex + 1 && has(state.variables, l.Name) && state.variables[l.Name] == offset
 //@   loop 1 invariant forall k :: { bodyinsts[k] } 0 <= k && k <= rangeindex ==> shiftRel(pat.search[k], bodyinsts[k], offset + 1)
 //@   loop 1 invariant forall k :: { pat.search[k] } 0 <= k && k < n ==> pat.search[k] == old(pat.search[k])
+
+// ---- per-command variable scope (C13) ----
+// generateSearchInstruction: the body generator. Its functional contract is not yet proved
+// (assumed: it returns instructions or an error); its FRAME is checked by write-effect
+// inference: the only pre-existing memory written below it is the per-command scope map
+// (state.variables) - in particular never the global definition maps nor a stored pattern.
+//@ func generateSearchInstruction [C13]
+//@   trusted
+//@   effects onlywrites map<string>int
+//@   requires l != nil && state != nil && state.variables != nil
+//@   modifies allmaps(state.variables)
+//@   ensures result.1 != nil || true
+//@ func generateReplaceInstruction [C13]
+//@   trusted
+//@   effects onlywrites map<string>int
+//@   requires l != nil && state != nil
+//@   ensures result.1 != nil || true
+
+//@ func generateFindCommand [C13]
+//@   noframe
+//@   requires f != nil && state != nil
+//@   loop 1 invariant scope: rangeindex == -1 ==> fresh(state.variables) && state.variables != nil && (forall k Str :: { select(domain(state.variables), k) } !has(state.variables, k))
+//@   loop 1 invariant live: state.variables != nil
+//@ func generateReplaceCommand [C13]
+//@   noframe
+//@   requires r != nil && state != nil
+//@   loop 1 invariant scope: rangeindex == -1 ==> fresh(state.variables) && state.variables != nil && (forall k Str :: { select(domain(state.variables), k) } !has(state.variables, k))
+//@   loop 1 invariant live: state.variables != nil
+//@ func generateSetPattern [C13 C12]
+//@   noframe
+//@   requires state != nil && state.globalSubroutines != nil
+//@   loop 2 invariant private: ctxOk(info) && info.context == PREDICATE && !info.inLoop && fresh(info.environment) [C12]
+//@   loop 2 invariant initial: rangeindex == -1 ==> initialEnv(info) [C12]
+//@   loop 2 invariant noerror: rangeindex >= 0 ==> info.currentType != PTERROR [C12]
+//@   loop 1 invariant scope: rangeindex == -1 ==> fresh(state.variables) && state.variables != nil && (forall k Str :: { select(domain(state.variables), k) } !has(state.variables, k))
+//@   loop 1 invariant live: state.variables != nil && state.globalSubroutines != nil
